@@ -76,6 +76,29 @@ fn enc_case(rng: &mut Rng, out: &mut CaseOut) {
             }
         };
         for round in 0..rounds {
+            // now and then a round whose result is dropped by *unwinding*: user
+            // code panics while it holds the result, the panic is caught further
+            // up and the encoder, which lives outside, is used again
+            if round > 0 && rng.chance(1, 6) {
+                for _ in 0..k {
+                    let junk = rng.bytes(size);
+                    if let Err(e) = enc.add(&junk) {
+                        out.violate("C12:encoder-round-not-accepted-after-drop", format!("{desc}: round {round}: add failed with {e:?}"));
+                        return;
+                    }
+                }
+                match guarded(|| enc.encode_then_unwind()) {
+                    Err(p) if p.contains(codec::USER_PANIC) => out.tag("result-dropped-by-unwinding"),
+                    Err(p) => {
+                        out.violate(format!("C12:encoder:{}", panic_sig(&p)), format!("{desc}: {p}"));
+                        return;
+                    }
+                    Ok(r) => {
+                        out.violate("C12:encode-failed", format!("{desc}: round {round}: {:?}", r.err()));
+                        return;
+                    }
+                }
+            }
             let originals = gen::originals(rng, k, size);
             for o in &originals {
                 if let Err(e) = enc.add(o) {
@@ -159,6 +182,33 @@ fn dec_case(rng: &mut Rng, out: &mut CaseOut) {
             let originals = gen::originals(rng, k, size);
             let recovery = codec::encode_fresh(Api::Rate(rate, EngineKind::NoSimd), k, r, size, &originals)
                 .expect("reference encode");
+            if round > 0 && rng.chance(1, 6) {
+                // a round whose result is dropped by unwinding (see enc_case)
+                let (oi, ri, _) = gen::received_set(rng, k, r);
+                for i in &oi {
+                    if let Err(e) = dec.add_original(*i, &originals[*i]) {
+                        out.violate("C12:decoder-round-failed", format!("{desc}: round {round}: {e:?} (dropping the result must start a new round)"));
+                        return;
+                    }
+                }
+                for i in &ri {
+                    if let Err(e) = dec.add_recovery(*i, &recovery[*i]) {
+                        out.violate("C12:decoder-round-failed", format!("{desc}: round {round}: {e:?} (dropping the result must start a new round)"));
+                        return;
+                    }
+                }
+                match guarded(|| dec.decode_then_unwind()) {
+                    Err(p) if p.contains(codec::USER_PANIC) => out.tag("result-dropped-by-unwinding"),
+                    Err(p) => {
+                        out.violate(format!("C12:decoder:{}", panic_sig(&p)), format!("{desc}: {p}"));
+                        return;
+                    }
+                    Ok(r) => {
+                        out.violate("C12:decoder-round-failed", format!("{desc}: round {round}: {:?}", r.err()));
+                        return;
+                    }
+                }
+            }
             let (oi, ri, shape) = gen::received_set(rng, k, r);
             let order = gen::add_order(rng, &oi, &ri, true);
             let probes = probe_indexes(rng, k, r);
